@@ -348,7 +348,7 @@ func runExchange(t *verifsim.Tape, cfg engine.Config, prop string) *engine.Outco
 		return o
 	}
 	faulty := t.Draw("faulty-run", 3) == 2 && prop != "C14" // the contract check judges intact exchanges only
-	ncfg := simnet.Config{Chunking: true, ForceChunked: 250, HeaderNoise: 250}
+	ncfg := simnet.Config{Chunking: true, ForceChunked: 250, HeaderNoise: 250, DoubleClose: 100}
 	if faulty {
 		ncfg.CutRequest, ncfg.FlipRequest, ncfg.DupRequest, ncfg.DropRequest = 150, 150, 100, 50
 		ncfg.CutResponse, ncfg.FlipResponse, ncfg.WriterError = 100, 100, 100
